@@ -4406,7 +4406,7 @@ _trait_set_validate(trait_object *trait, PyObject *args)
                     break;
 
                 case 1: /* Instance check: */
-                    if ((n <= 3)
+                    if ((n >= 2) && (n <= 3)
                         && ((n == 2)
                             || (PyTuple_GET_ITEM(validate, 1) == Py_None))) {
                         goto done;
